@@ -8,7 +8,7 @@
     expansion of every corpus declaration on every run; the theorems say what a successful check
     means for all raw values, all arguments, all in-range indices and both build profiles
     ([c] ranges over overflow-checks on/off). *)
-From BB Require Import Bits Expr Sym Spec Validate Parse ParseCorrect Enum Prog History Builder Surface DebugFmt Gen GenCorrect.
+From BB Require Import Bits Expr Sym Spec Validate Parse ParseCorrect Enum Prog History Builder Surface DebugFmt Gen GenCorrect BuilderValid.
 Open Scope N_scope.
 
 (** ** C01 — getter returns exactly the declared bits *)
@@ -362,3 +362,22 @@ Theorem C12_generator_model_any_history : forall c d ops raw,
   Forall (hop_ok d) ops -> raw < 2 ^ d_W d ->
   model_run c d raw ops = Ok (run (map hop_wop ops) raw) /\ run (map hop_wop ops) raw < 2 ^ d_W d.
 Proof. exact model_history. Qed.
+
+(** C14 for every rule-valid declaration: build() type-checks exactly for the complete chain *)
+Theorem C14_build_typechecks_iff_every_field_supplied_in_order : forall d steps,
+  valid_decl d = true -> builder_offered d = Some steps ->
+  forall calls, typechecks steps (final_mask steps) 0 calls = true <-> calls = full_calls steps.
+Proof. exact typestate_for_valid_declarations. Qed.
+
+(** C07 per program: when the run's obligation on the translated real match holds, the real match computes the
+    model's conversion for every raw value *)
+Theorem C07_real_match_is_the_model_conversion : forall e p,
+  NoDup (map v_name (en_variants e)) ->
+  list_eqb arm_eqb (ep_arms p) (expected_arms e) = true ->
+  (match ep_default p with
+   | DefErr => exh_matches (exh_of e) false
+   | DefUnreachable => negb (exh_matches (exh_of e) false)
+   | DefOther => false
+   end) = true ->
+  forall x, ep_new p (live_name e) x = enum_new e x.
+Proof. exact check_enum_new_sound. Qed.
